@@ -186,6 +186,7 @@ class SchedRun:
         self.sched = []          # (idx, action-term)
         self.protocol = []       # deviations from the one-write-per-section protocol
         self.states_seen = [self.snapshot_state()]
+        self.kill_views = []      # (command, protocol state it was killed in, view before, view after)
         self.procs = []
         reqs = []
         for fx in (fixed or []):
@@ -297,9 +298,17 @@ class SchedRun:
             p.state = 'rprobed' if p.at == 'read.probed' else 'rdone'
             return
         if action == 'AKill':
+            was = p.state
             c.kill(p)
             self.sched.append((p.idx, 'AKill'))
             p.state = 'dead'
+            if p.kind == 'w':
+                # what a reader sees right after the kill: a plain kill (no write torn) happens between system calls,
+                # so it is a state the store has already shown or the state after this command
+                st = self.snapshot_state()
+                self.kill_views.append(((p.req or {}).get('k'), was, self.states_seen[-1] if self.states_seen else None, st))
+                if st is not None:
+                    self.states_seen.append(st)
             return
         if p.state == 'rprobed':
             c.release(p)               # scan
